@@ -1,7 +1,7 @@
 #!/bin/bash
 # usage: tools/try_mutant.sh <patch.diff> <PID> [tier]   -- applies the patch to /repo, runs the check, reverts.
 set -u
-patch="$1"; pid="$2"; tier="${3:-quick}"
+patch="$(realpath "$1")"; pid="$2"; tier="${3:-quick}"
 cd /repo || exit 2
 if ! git diff --quiet; then echo "/repo working tree is dirty"; exit 2; fi
 git apply "$patch" || { echo "patch does not apply"; exit 2; }
